@@ -81,7 +81,24 @@ def run_case(rng, tier, case):
     ru = flow.run_portfolio(spec)
     if not ru.ok:
         case.reject('unsplit: ' + flow.describe_error(ru)); return
-    rs = flow.run_portfolio(spec, split=size)
+    built_s = None
+    if rng.random() < 0.3:
+        # rolling use: the same portfolio object was set up for an earlier horizon (other grid object, other prices) before this split set-up
+        try:
+            from ..spec import build, build_timegrid
+            with attach.paused(), env.quiet():
+                built_s = build(spec)
+                g0 = dict(spec['grid']); span = pd.Timestamp(g0['end']) - pd.Timestamp(g0['start'])
+                back = pd.Timedelta(days=int(np.ceil(span / pd.Timedelta(days=1))) + 7)
+                g0['start'] = str(pd.Timestamp(g0['start']) - back); g0['end'] = str(pd.Timestamp(g0['end']) - back)
+                if gen.local_ok(g0['start'], g0.get('tz')) and gen.local_ok(g0['end'], g0.get('tz')):
+                    tg0 = build_timegrid(g0)
+                    pr0 = {k: np.asarray(v, float) for k, v in gen.gen_prices(rng, tg0.T, sorted(spec['prices'])).items()}
+                    built_s.portfolio.setup_optim_problem(pr0, tg0)
+                    case.feature('earlier_horizon_first')
+        except Exception:
+            built_s = None        # (the earlier horizon is only history; if it cannot be set up the split runs on fresh objects)
+    rs = flow.run_portfolio(spec, split=size, built=built_s)
     if not rs.ok:
         if rs.stage in ('optimize', 'extract'):
             case.check('split.optimize_and_extract_work', False, interval=size, stage=rs.stage, error=flow.describe_error(rs)); return
